@@ -108,3 +108,31 @@ def shape_unmasked(kind, params, shape, scales, centre, band=1e-9):
         a, b = params["inner_major_axis_radius"], params["outer_major_axis_radius"]
         return (ri >= a) & (ro <= b), (np.abs(ri - a) <= band) | (np.abs(ro - b) <= band)
     raise ValueError(kind)
+
+
+# ---------------------------------------------------------------------------------------------
+# exact location of an arbitrary point (rational arithmetic on the exact values of the floats)
+# ---------------------------------------------------------------------------------------------
+def locate_exact(py, px, shape, scales, origin):
+    """Continuous pixel coordinate (q_y, q_x) of the scaled point (py, px), measured from the top-left corner
+    of the frame, as exact Fractions: q_y = (y_max - py)/s_y, q_x = (px - x_min)/s_x with y_max = o_y + H s_y/2
+    and x_min = o_x - W s_x/2.  The point lies in pixel (floor q_y, floor q_x) iff 0 <= q_y < H, 0 <= q_x < W."""
+    from fractions import Fraction as Fr
+    h, w = int(shape[0]), int(shape[1])
+    sy, sx = Fr(float(scales[0])), Fr(float(scales[1]))
+    oy, ox = Fr(float(origin[0])), Fr(float(origin[1]))
+    qy = (oy + Fr(h) * sy / 2 - Fr(float(py))) / sy
+    qx = (Fr(float(px)) - (ox - Fr(w) * sx / 2)) / sx
+    return qy, qx
+
+
+def corner_from_pixel_exact(p, q, shape, scales, origin):
+    """Scaled (y, x) of the continuous pixel coordinate (p, q) measured from the top-left corner (inverse of
+    locate_exact), evaluated exactly and rounded once: y = o_y + (H/2 - p) s_y, x = o_x + (q - W/2) s_x."""
+    from fractions import Fraction as Fr
+    h, w = int(shape[0]), int(shape[1])
+    sy, sx = Fr(float(scales[0])), Fr(float(scales[1]))
+    oy, ox = Fr(float(origin[0])), Fr(float(origin[1]))
+    y = oy + (Fr(h) / 2 - Fr(float(p))) * sy
+    x = ox + (Fr(float(q)) - Fr(w) / 2) * sx
+    return float(y), float(x)
